@@ -27,6 +27,24 @@ type Table struct {
 	terms []Term
 	index map[string]ID
 	strs  map[ID]string
+	// Alias: equalities valid on the path class being matched (set by the rule evaluator from "is" atoms,
+	// nil otherwise): a term that fails to match a pattern is retried as its alias.
+	Alias map[ID]ID
+}
+
+// AliasesOf collects the is(x, y) atoms of a set as a map x -> y (nil when there is none).
+func (t *Table) AliasesOf(set Set) map[ID]ID {
+	var m map[ID]ID
+	for _, id := range set {
+		tm := &t.terms[id]
+		if tm.Op == "is" && len(tm.Args) == 2 {
+			if m == nil {
+				m = map[ID]ID{}
+			}
+			m[tm.Args[0]] = tm.Args[1]
+		}
+	}
+	return m
 }
 
 func NewTable() *Table {
